@@ -207,6 +207,28 @@ def resolve(v, rec_ids):
     return v
 
 
+def error_valued_cells():
+    """A listener may hand over an error object for a cell (the sheet holds #N/A there): it is the value of that reference, no more.  The references and
+    calls to its right raise their events as ever, and the trapping functions see it."""
+    from ..env import errors as _errors
+    Q = hot().Parser()
+    seen = []
+    table = {'A1': _errors().NOT_AVAILABLE, 'B1': 7, 'C1': 5, 'D1': _errors().DIV_ZERO}
+
+    def cell_l(cell, setter):
+        seen.append(cell.label)
+        setter(table.get(cell.label))
+    Q.on('callCellValue', cell_l)
+    Q.on('callFunction', lambda name, args, setter: seen.append(name))
+    for f, events, want in (('IFERROR(A1,B1)+C1', ['A1', 'B1', 'IFERROR', 'C1'], {'result': 12, 'error': None}), ('ISNA(A1)&C1', ['A1', 'ISNA', 'C1'], {'result': 'True5', 'error': None}),
+                            ('IF(ISERROR(D1),B1,C1)', ['D1', 'ISERROR', 'B1', 'C1', 'IF'], {'result': 7, 'error': None}), ('A1+B1', ['A1', 'B1'], {'result': None, 'error': '#N/A'}),
+                            ('SUM(B1,IFERROR(D1,1),C1)', ['B1', 'D1', 'IFERROR', 'C1', 'SUM'], {'result': 13, 'error': None})):
+        del seen[:]
+        r = Q.parse(f)
+        if seen != events or r != want:
+            raise Violation('a cell listener hands over #N/A for A1, #DIV/0! for D1, 7 for B1, 5 for C1: %s raised the events %r and gave %r; expected the events %r and %r' % (f, seen, r, events, want), [seen, r['error'] or enc(r['result'])], [events, want['error'] or want['result']])
+
+
 def check(case):
     tree, L = case['tree'], case['listeners']
     try:
@@ -306,7 +328,14 @@ def check(case):
                     nested()
                     continue
                 setter(None if t is None else ('fn:' + name if t == 'tag' else CONSTS[t]))
-        return {'callCellValue': cell_l, 'callRangeValue': range_l, 'callVariable': var_l, 'callFunction': func_l}[kind]
+        fn = {'callCellValue': cell_l, 'callRangeValue': range_l, 'callVariable': var_l, 'callFunction': func_l}[kind]
+        if idx % 2 == 0:
+            # what a listener returns is nobody's business: every other one returns False ("not mine", in the idiom `label in table and setter(...)`)
+            def returning_false(*a):
+                fn(*a)
+                return False
+            return returning_false
+        return fn
     transient_calls = dict((k, 0) for k in KINDS)
     holder = {}
     for kind in KINDS:
@@ -347,6 +376,7 @@ def check(case):
             break
     if problems:
         raise Violation(d + problems[0], problems[0], None)
+    error_valued_cells()
     # expected log: each event once per listener of its kind, listeners in subscription order
     want_log = []
     for e in want_events:
